@@ -25,7 +25,7 @@ EXPLANATION = (
     'assembly gives every positional parameter exactly one outcome; (g) '
     'Functor._on_change processes every update of a batch.  Agreement with '
     'the interpreter\'s binding rules is differential and not decided.')
-FLOORS = {'C18.a': 4, 'C18.b': 1, 'C18.c': 1, 'C18.d': 2, 'C18.e': 1, 'C18.f': 1, 'C18.g': 1, 'C18.h': 1, 'C18.i': 2, 'C18.j': 2, 'C18.k': 1, 'C18.l': 3, 'C18.m': 2}
+FLOORS = {'C18.a': 4, 'C18.b': 1, 'C18.c': 1, 'C18.d': 2, 'C18.e': 1, 'C18.f': 1, 'C18.g': 1, 'C18.h': 1, 'C18.i': 2, 'C18.j': 2, 'C18.k': 1, 'C18.l': 3, 'C18.m': 2, 'C18.n': 3}
 FILES = ['pyglove/core/symbolic/functor.py', 'pyglove/core/symbolic/class_wrapper.py',
          'pyglove/core/symbolic/symbolize.py', 'pyglove/core/typing/callable_signature.py',
          'pyglove/core/coding/function_generation.py', 'pyglove/core/symbolic/object.py']
@@ -552,6 +552,83 @@ def rule_m(ctx):
          f.loc, '; '.join(problems))
 
 
+def rule_n(ctx):
+  """Binding errors are errors: (1) at construction a parameter bound
+  positionally and again by keyword raises; (2) at call time a parameter that is
+  already specified can be given again only when override_args is on - both for
+  positional and for keyword re-binding; (3) an unknown keyword raises unless
+  ignore_extra_args is on."""
+  idx = ctx.index
+  # (1) Functor.__init__
+  f = idx.func(FN + '__init__')
+  g = C.cfg_of(f.node)
+  kw = f.node.args.kwarg.arg if f.node.args.kwarg else None
+  loops = [k for k in g.nodes if k.kind == 'iter' and isinstance(k.ast.iter, ast.Call) and A.call_name(k.ast.iter) == f'{kw}.items']
+  problems = []
+  if not loops:
+    problems.append('keyword loop not found')
+  else:
+    kv = A.assigned_names(loops[0].ast.target)
+    filled = {st.targets[0].value.id for st in ast.walk(f.node) if isinstance(st, ast.Assign)
+              and isinstance(st.targets[0], ast.Subscript) and isinstance(st.targets[0].value, ast.Name)}
+    tests = [t for t in g.nodes if t.kind == 'test' and isinstance(t.ast, ast.Compare) and len(t.ast.ops) == 1
+             and isinstance(t.ast.ops[0], ast.In) and isinstance(t.ast.left, ast.Name) and t.ast.left.id in kv
+             and A.unparse(t.ast.comparators[0]) in filled and any(x is t.ast for x in ast.walk(loops[0].ast))]
+    if not tests or not all(g.always_raises_from(t, 'true') for t in tests):
+      problems.append('a keyword that repeats a positionally bound parameter does not raise')
+  ctx.ob('C18.n', f.fq + '#multiple-values', not problems,
+         'at construction a parameter bound positionally and again by keyword raises TypeError', f.loc, '; '.join(problems))
+  # (2)/(3) call time
+  f = idx.func(FN + '_parse_call_time_overrides')
+  g = C.cfg_of(f.node)
+  def flag_locals(word):
+    return {nm for st in ast.walk(f.node) if isinstance(st, ast.Assign) and word in A.unparse(st.value)
+            for nm in A.assigned_names(st.targets[0])} | {word}
+  ov, ig = flag_locals('override_args'), flag_locals('ignore_extra_args')
+  spec_tests = [t for t in g.nodes if t.kind == 'test' and isinstance(t.ast, ast.Compare) and len(t.ast.ops) == 1
+                and isinstance(t.ast.ops[0], ast.In) and A.unparse(t.ast.comparators[0]) in ('self._specified_args', 'self.specified_args')]
+  problems = []
+  if len(spec_tests) < 2:
+    problems.append(f'{len(spec_tests)} "already specified" tests (positional and keyword re-binding expected)')
+  for t in spec_tests:
+    # on the "already specified" side, with overriding OFF, the normal exit is unreachable
+    blocked = set()
+    for k in g.nodes:
+      if k.kind == 'test' and isinstance(k.ast, ast.Name) and k.ast.id in ov:
+        blocked |= {(k.id, m.id, l) for m, l in k.succ if l == 'true'}
+    for m, lab in t.succ:
+      if lab != 'true':
+        continue
+      seen, _ = g.reach(m, blocked_edges=blocked, follow_exc=False)
+      seen.add(m.id)
+      if g.exit.id in seen or any(h.id in seen for h in g.nodes if h.kind == 'iter'):
+        problems.append(f'line {t.lineno}: an already specified argument can be re-bound although override_args is off')
+  ctx.ob('C18.n', f.fq + '#override-guard', not problems,
+         'an argument that is already specified is re-bound at call time only when override_args is on', f.loc,
+         '; '.join(problems))
+  spec_lookup = [t for t in g.nodes if t.kind == 'test' and isinstance(t.ast, ast.Name) and t.ast.id in {
+      nm for st in ast.walk(f.node) if isinstance(st, ast.Assign) and isinstance(st.value, ast.Call)
+      and (A.call_name(st.value) or '').endswith('.get_value_spec') for nm in A.assigned_names(st.targets[0])}]
+  problems = []
+  if not spec_lookup:
+    problems.append('lookup of the keyword in the signature not found')
+  for t in spec_lookup:
+    blocked = set()
+    for k in g.nodes:
+      if k.kind == 'test' and isinstance(k.ast, ast.Name) and k.ast.id in ig:
+        blocked |= {(k.id, m.id, l) for m, l in k.succ if l == 'true'}
+    for m, lab in t.succ:
+      if lab != 'false':
+        continue
+      seen, _ = g.reach(m, blocked_edges=blocked, follow_exc=False)
+      seen.add(m.id)
+      if g.exit.id in seen or any(h.id in seen for h in g.nodes if h.kind == 'iter'):
+        problems.append(f'line {t.lineno}: a keyword the signature does not know is accepted although ignore_extra_args is off')
+  ctx.ob('C18.n', f.fq + '#unexpected-keyword', not problems,
+         'a keyword argument unknown to the signature raises TypeError unless ignore_extra_args is on', f.loc,
+         '; '.join(problems))
+
+
 def run(ctx):
   ctx.consult(*FILES)
   rule_a(ctx)
@@ -566,5 +643,6 @@ def run(ctx):
   rule_j(ctx)
   rule_k(ctx)
   rule_m(ctx)
+  rule_n(ctx)
   S.typecheck_flag_obligations(ctx, 'C18.l', ['pyglove/core/symbolic/functor.py', 'pyglove/core/symbolic/class_wrapper.py', 'pyglove/core/symbolic/object.py'], floor=3)
   ctx.assume('agreement with the interpreter\'s argument binding is differential by nature: not decided')
